@@ -155,6 +155,12 @@ func Run(run *kernel.Run, p Params) {
 	if s.FreeRun {
 		run.Fault("freerun_fallback")
 	}
+	if s.Foreign > 0 {
+		// the library ran goroutines of its own: they run free (the race
+		// detector still sees them), the run is not exactly repeatable
+		run.Res.Probes["handoff_points_reached_by_library_goroutines"] += s.Foreign
+		run.Res.FreeRun = true
+	}
 	if s.LockWaits > 0 {
 		run.Res.Faults["lock_contention_deschedules"] += s.LockWaits
 	}
